@@ -2,3 +2,5 @@ pub mod known;
 pub mod runner;
 pub mod props;
 pub mod util;
+pub mod gen;
+pub mod hist;
